@@ -104,9 +104,9 @@ impl Property for C19 {
                 namespaces: true,
                 attlist: true,
                 entity_refs: true,
-                xpath_values: true,
+                xpath_values: false,
                 non_ascii_names: false,
-                cr_chars: false,
+                cr_chars: true,
                 external_id: false,
                 prolog_misc: true,
                 comments_pis: true,
